@@ -31,7 +31,7 @@ class C15(fw.Prop):
             "none / all / first row / alternating / random 30 %, capture periods 0,1,15,60,1440, naive and aware timestamps; rows of wrong "
             "width at every position; a non-timestamp value in a clock column; the same buffers through parse_bytes (A-XDR array of "
             "structures); object lists with every access-mode byte 0..255, 0..20 attributes/methods, selector lists present/absent/empty, "
-            "duplicate attribute ids, unknown interface classes, logical names of wrong length; non-trivial = distinct protocol line")
+            "duplicate attribute ids, unknown interface classes, logical names of wrong length; row counts written in the long form (0x81 n, 0x82 00 n); non-trivial = distinct protocol line")
     trusted_base = ["extract.py (parse_access_right graph, enum members)", "C14 (decoding of the transmitted bytes), C16 (meaning of timestamps)"]
     assumptions = ["with more than one clock column the code keeps a single running timestamp (the most recent transmitted or filled one); "
                    "with one clock column this is the previous row's timestamp, as the property says",
